@@ -21,8 +21,12 @@ RULE = ('generated source directories converted by the real EphysAlfCreator: (a)
         'uncurated directories with full features and MORE than 50 000 spikes (get_depths\' batch size; quick: one of '
         '50 009..50 048 spikes, thorough: 50 001, 99 999, 100 000, 100 001.., 150 003) repeating a period of 4..8 spikes, whose '
         'spikes.amps / spikes.depths are judged entry j against the one-period model at j mod k (C14_depths_periodic, '
-        'C14_spike_amps_periodic). '
-        'Corpus first (the three-probe maps [2,0,1] [1,3,0,2] [0,1], narrow probes, 12/13/14 channels), then axis '
+        'C14_spike_amps_periodic); (d) stage 5: convert(force=False | True) on every kind of dataset and, for merged datasets, '
+        'the merged channel_map.npy stored 1-D or as an (n, 1) column; single directories with a two-shank channel_shanks.npy; '
+        'curated directories in which a cluster stems from 2..3 arbitrary templates (any ids, dominant template anywhere in '
+        'the group, count ties) whose channel neighbourhoods differ (13..16 channels on one shank, or two shanks): the loaded '
+        'cluster waveforms are judged against PV.C08.Model.load composed with the exporter model (clause 28). '
+        'Corpus first (the stage-5 forced instances, then the three-probe maps [2,0,1] [1,3,0,2] [0,1], narrow probes, 12/13/14 channels), then axis '
         'products, then seeded random. Non-trivial = the conversion ran and wrote every value file; distinct = distinct '
         'abstract input.')
 EXHAUSTIVE = {'quick': False, 'thorough': False}
@@ -36,9 +40,14 @@ CLAUSES = {
     25: 'C14_spike_depths: spikes.depths = feature-weighted depths, or the cluster depth without a full feature store',
     26: 'C14_durations: clusters.peakToTrough = peak-to-trough time in ms on the peak channel, NaN for ids without spikes (curated or not)',
     27: 'C14_rawind: channels.rawInd restricted to probe k = probe k\'s original channel map (merged datasets of any number of probes)',
+    28: 'C14_C08_cluster_waveform: the cluster waveforms the exporter reads (loaded sparse_clusters; source of clusters.waveforms / '
+        'channels / depths / peakToTrough / amps) = the template for a one-template cluster, zeros for an empty id, else the '
+        'spike-count weighted mean of the stored templates on the channels of the dominant template (PV.C08.Model.load composed in)',
 }
-TRUSTED = ['np.load/np.save, the TemplateModel loader (C04), cluster_waveforms (C08) and, for merged datasets, the Merger (C11/C12): '
-           'the arrays of the loaded model are snapshotted before convert() and are the inputs of the Coq model',
+TRUSTED = ['np.load/np.save, the TemplateModel loader (C04) and, for merged datasets, the Merger (C11/C12): '
+           'the arrays of the loaded model are snapshotted before convert() and are the inputs of the Coq model; since stage 5 the loaded '
+           'cluster waveforms / n_clusters / nan_idx (get_merge_map, get_cluster_mean_waveforms, cluster_waveforms) are no longer trusted '
+           'but judged against PV.C08.Model.load on the same snapshot (clause 28; n_closest_channels = 12, integer means)',
            'np.matmul / np.bincount / np.unique / np.argmax / np.argsort (a sorting permutation; ties undetermined) / fancy indexing as documented',
            'observed floats are converted to exact rationals: float64 files within 2^-48, float32 files within 2^-23 relative of the exact model value, NaN exactly NaN',
            'datasets of more than 50 000 spikes: the harness (datasets_c14.snapshot) checks with NumPy that the loaded per-spike arrays '
@@ -58,6 +67,15 @@ def _case(inp):
 def generate(tier, rng):
     cases = []
     # ---- corpus -------------------------------------------------------------------------------------------
+    # (0) stage 5, forced instances of the new axes, first: a merged dataset of three probes exported with
+    # convert(force=True) / with the merged channel_map.npy stored as an (n, 1) column; a curated 16-channel column in
+    # which templates 3 and 5 (5 dominant: id != rank in the group) are merged; the same on two shanks
+    cases.append(_case(X.gen_merged(rng, k=3, ncs=[4, 5, 3], cms=[[2, 0, 5, 1], [3, 6, 0, 2, 1], [1, 4, 0]], force=True, cm_col=False)))
+    cases.append(_case(X.gen_merged(rng, k=3, ncs=[3, 4, 2], cms=[[2, 0, 1], [1, 3, 0, 2], [0, 1]], force=False, cm_col=True)))
+    cases.append(_case(X.gen_merge_case(rng, nt=6, group=[3, 5], dominant=5, extra_spikes=2, new_id=6, split=0.0, nc=16,
+                                        geometry='column', shanks=False, table='none', features='none')))
+    cases.append(_case(X.gen_merge_case(rng, nt=4, group=[1, 2, 3], dominant=3, extra_spikes=3, new_id=4, split=0.0, nc=6,
+                                        shanks=True, table='none')))
     # (a) the repaired defect: three probes, maps [2,0,1] [1,3,0,2] [0,1] (DESIGN.md section 9), all channel-map dtypes
     for dt in ('int32', 'uint32', 'int64'):
         cases.append(_case(X.gen_merged(rng, k=3, ncs=[3, 4, 2], cms=[[2, 0, 1], [1, 3, 0, 2], [0, 1]], cm_dtype=dt)))
@@ -111,6 +129,13 @@ def generate(tier, rng):
         cases.append(_case(X.gen_big(rng, n, **({'reps': 4} if tier == 'quick' else {}))))      # quick: period 8
     # ---- axis products ------------------------------------------------------------------------------------
     n_axis, n_single, n_merged = {'quick': (2, 80, 80), 'thorough': (10, 2500, 2500), 'search': (2, 150, 150)}[tier]
+    # stage 5: curated merges of arbitrary templates with distinct channel neighbourhoods (> 12 channels / two shanks)
+    for _ in range({'quick': 24, 'thorough': 600, 'search': 60}[tier]):
+        cases.append(_case(X.gen_merge_case(rng)))
+    for force in (False, True):
+        for col in (False, True):
+            for k in (2, 3, 4):
+                cases.append(_case(X.gen_merged(rng, k=k, force=force, cm_col=col)))
     for _ in range(n_axis):
         for k in (1, 2, 3, 4):
             for dt in ('int32', 'uint32'):
@@ -140,7 +165,8 @@ def run_case(case):
         snap = X.snapshot(m, inp['probes'][0]['n_spikes'] if inp.get('big_n') else None)
         out = os.path.join(base, 'alf')
         try:
-            m2 = EphysAlfCreator(m).convert(out, label=inp['label'], ampfactor=float(inp['factor']))
+            m2 = EphysAlfCreator(m).convert(out, label=inp['label'], ampfactor=float(inp['factor']),
+                                            **({'force': True} if inp.get('force') else {}))
             if m2 is not None:
                 m2.close()
         except Exception as e:  # noqa: the conversion raised: an observable
@@ -221,7 +247,8 @@ def encode(case, obs):
             raise ValueError('C14 regime: the tiled dataset did not load as a periodic one')
         cin = '(InAlfBig %s %s %s %s %s)' % (x, _tk(D.tok(float(inp['factor']))), _tk(s['rate']), q.zl(s['nan_idx']), q.z(s['n']))
     else:
-        cin = '(InAlf %s %s %s %s %s)' % (x, _tk(D.tok(float(inp['factor']))), _tk(s['rate']), orig, q.zl(s['nan_idx']))
+        cin = '(InAlfL %s %s %s %s %s %s)' % (x, _tk(D.tok(float(inp['factor']))), _tk(s['rate']), orig, q.zl(s['nan_idx']),
+                                              q.zl(s['shanks']))
     if obs[0] == 'raised' or any(v[k] is None for k in X.VALUE_FILES):
         return cin, 'ObsCrash'
     cobs = '(ObsAlf (mk_alf_obs %s %s %s %s %s %s %s %s %s %s %s %s))' % (
@@ -240,7 +267,15 @@ def dist(case, obs):
     inp = case['inp']
     o = inp['opts']
     out = ['kind=%s' % case['kind'], 'label=%s' % (inp['label'] or '-'), 'factor=%s' % inp['factor'],
-           'cm_dtype=%s' % inp['render']['cm_dtype']]
+           'cm_dtype=%s' % inp['render']['cm_dtype'], 'force=%s' % bool(inp.get('force'))]
+    if inp['merged']:
+        out.append('merged.channel_map_column=%s' % bool(inp.get('cm_col')))
+    else:
+        out.append('single.shanks=%s' % (inp['probes'][0].get('shanks') is not None))
+        if o.get('merge_group'):
+            g, dm = o['merge_group'], o['merge_dominant']
+            out += ['merge.size=%d' % len(g), 'merge.dominant_id_eq_rank=%s' % (g.index(dm) == dm),
+                    'merge.neighbourhoods=%s' % ('two_shanks' if inp['probes'][0].get('shanks') is not None else '>12_channels')]
     if inp.get('big_n'):
         out += ['big.n_spikes=%s' % ('50001..99999' if inp['big_n'] < 100000 else '100000' if inp['big_n'] == 100000 else '>100000'),
                 'big.multiple_of_batch=%s' % (inp['big_n'] % 50000 == 0), 'big.period=%d' % inp['probes'][0]['n_spikes']]
@@ -345,12 +380,18 @@ def shrink(case):
         j = copy.deepcopy(inp)
         j['label'] = ''
         yield _case(j)
+    for key in ('force', 'cm_col'):
+        if inp.get(key):
+            j = copy.deepcopy(inp)
+            j[key] = False
+            yield _case(j)
 
 
 def size(case):
     inp = case['inp']
     return sum(s['n_spikes'] * 10 + s['n_templates'] * s['n_samples_wf'] * s['n_channels'] for s in inp['probes']) + \
-        100 * len(inp['probes']) + (50 if inp.get('features') else 0) + 10 * inp.get('big_n', 0)
+        100 * len(inp['probes']) + (50 if inp.get('features') else 0) + 10 * inp.get('big_n', 0) + \
+        (5 if inp.get('force') else 0) + (5 if inp.get('cm_col') else 0)
 
 
 def repro(case):
@@ -361,6 +402,6 @@ def repro(case):
             "inp = %r\n"
             "base = tempfile.mkdtemp(); m = X.build_model(inp, base)\n"
             "print('channel_mapping', m.channel_mapping, 'channel_probes', m.channel_probes, 'per-probe maps', [p['channel_map'] for p in inp['probes']])\n"
-            "EphysAlfCreator(m).convert(os.path.join(base, 'alf'), label=inp['label'], ampfactor=inp['factor'])\n"
+            "EphysAlfCreator(m).convert(os.path.join(base, 'alf'), label=inp['label'], ampfactor=inp['factor'], force=bool(inp.get('force')))\n"
             "for k, v in X.read_values(os.path.join(base, 'alf'), inp['label']).items(): print(k, np.load(os.path.join(base, 'alf', k + ('.' + inp['label'] if inp['label'] else '') + '.npy')).tolist())\n"
             % (case['inp'],))
